@@ -14,6 +14,7 @@
 From Coq Require Import ZArith List String Bool Lia PeanoNat.
 From LV Require Import Base.Conc Base.Events Base.Lin Spec.Specs Proofs.LinProofs
                        Model.FcKernel Model.FcBatch Proofs.FcBatchProofs Proofs.FcKernelProofs.
+From LV Require Proofs.FcKernelShape.   (* not imported: its view predicates would shadow Spec.St *)
 Import ListNotations.
 
 Set Implicit Arguments.
@@ -173,4 +174,86 @@ Proof.
   intros Hok Hr Hl. apply lp_valid_linearizable.
   exact (proj2 (fc_partA (S := PQueue) res_dec res_dec_enc s_okop_ge2 pq_capply_spec (pinit := (None : itprev)) (pheld := held_of) eq_refl
                          (@no_visit_sound PQueue s_okop s_dec) Hok Hr) Hl).
+Qed.
+
+(** ** Part B composed with part A: the unconditional theorems (current code, chk = true)
+
+    LV.Proofs.FcKernelShape.fc_never_lost proves, from the shape of the publication list, that no record is
+    ever released unanswered: a combiner's pass always reaches its own record.  The only precondition is the
+    one the real kernel has as well: a plain [combine] needs at least one combine pass
+    (m_nCombinePassCount >= 1; with 0 passes the combiner would never serve itself), [batch_combine] needs
+    nothing.  With it, the [has_lost = false] hypothesis of the part A theorems is discharged. *)
+Definition passes_ok (npass : nat) (ths : list (list cop)) : Prop := Forall (Forall (FcKernelShape.cop_pass npass)) ths.
+
+Lemma passes_ok_pos npass ths : 1 <= npass -> passes_ok npass ths.
+Proof.
+  intros H. apply Forall_forall. intros os _. apply Forall_forall. intros [b op arg|] _; cbn; auto.
+Qed.
+
+Lemma passes_ok_batch ths : Forall (Forall (fun o => match o with CReq b _ _ => b = true | CExit => True end)) ths ->
+  passes_ok 0 ths.
+Proof.
+  intros H. eapply Forall_impl; [|exact H]. intros os Hos. eapply Forall_impl; [|exact Hos].
+  intros [b op arg|] Ho; cbn; auto.
+Qed.
+
+Lemma ops_ok_progs_ok okop npass ths : (forall op, okop op = true -> 2 <= op) ->
+  ops_ok okop ths -> passes_ok npass ths -> FcKernelShape.progs_ok npass ths.
+Proof.
+  intros H2 Hok Hp. split; [|exact Hp]. eapply Forall_impl; [|exact Hok]. intros os Hos.
+  eapply Forall_impl; [|exact Hos]. intros [b op arg|] Ho; cbn in *; auto.
+Qed.
+
+(** *** the kernel: no request is ever lost, every request is executed exactly once *)
+Theorem fc_never_released_unanswered fuel mask npass ths c :
+  ops_ok cnt_okop ths -> passes_ok npass ths -> Conc.reach (cnt_init_cfg true fuel mask npass ths) c ->
+  has_lost (Conc.trace c) = false.
+Proof.
+  intros Hok Hp Hr. unfold cnt_init_cfg in Hr.
+  exact (FcKernelShape.fc_never_lost (ops_ok_progs_ok cnt_okop_ge2 Hok Hp) Hr).
+Qed.
+
+Theorem fc_exactly_once fuel mask npass ths c :
+  ops_ok cnt_okop ths -> passes_ok npass ths -> Conc.reach (cnt_init_cfg true fuel mask npass ths) c ->
+  lp_valid CountSpec (cnt_annot (Conc.trace c)).
+Proof.
+  intros Hok Hp Hr. apply (fc_exactly_once_partA Hok Hr). exact (fc_never_released_unanswered Hok Hp Hr).
+Qed.
+
+(** *** the four containers *)
+Theorem fcdeque_lp_valid fuel mask npass ths c :
+  ops_ok dq_okop ths -> passes_ok npass ths -> Conc.reach (dq_init_cfg true fuel mask npass ths) c ->
+  lp_valid Deque (annot Deque res_dec dq_dec (Conc.trace c)).
+Proof.
+  intros Hok Hp Hr. apply (fcdeque_lp_valid_partA Hok Hr). unfold dq_init_cfg in Hr.
+  exact (FcKernelShape.fc_never_lost (ops_ok_progs_ok dq_okop_ge2 Hok Hp) Hr).
+Qed.
+
+Theorem fcdeque_linearizable fuel mask npass ths c :
+  ops_ok dq_okop ths -> passes_ok npass ths -> Conc.reach (dq_init_cfg true fuel mask npass ths) c ->
+  linearizable Deque (fc_history Deque res_dec dq_dec (Conc.trace c)).
+Proof. intros Hok Hp Hr. apply lp_valid_linearizable. exact (fcdeque_lp_valid Hok Hp Hr). Qed.
+
+Theorem fcqueue_linearizable fuel mask npass ths c :
+  ops_ok q_okop ths -> passes_ok npass ths -> Conc.reach (q_init_cfg true fuel mask npass ths) c ->
+  linearizable Fifo (fc_history Fifo res_dec q_dec (Conc.trace c)).
+Proof.
+  intros Hok Hp Hr. apply (fcqueue_linearizable_partA Hok Hr). unfold q_init_cfg in Hr.
+  exact (FcKernelShape.fc_never_lost (ops_ok_progs_ok q_okop_ge2 Hok Hp) Hr).
+Qed.
+
+Theorem fcstack_linearizable fuel mask npass ths c :
+  ops_ok s_okop ths -> passes_ok npass ths -> Conc.reach (s_init_cfg true fuel mask npass ths) c ->
+  linearizable Stack (fc_history Stack res_dec s_dec (Conc.trace c)).
+Proof.
+  intros Hok Hp Hr. apply (fcstack_linearizable_partA Hok Hr). unfold s_init_cfg in Hr.
+  exact (FcKernelShape.fc_never_lost (ops_ok_progs_ok s_okop_ge2 Hok Hp) Hr).
+Qed.
+
+Theorem fcpq_linearizable fuel mask npass ths c :
+  ops_ok s_okop ths -> passes_ok npass ths -> Conc.reach (pq_init_cfg true fuel mask npass ths) c ->
+  linearizable PQueue (fc_history PQueue res_dec s_dec (Conc.trace c)).
+Proof.
+  intros Hok Hp Hr. apply (fcpq_linearizable_partA Hok Hr). unfold pq_init_cfg in Hr.
+  exact (FcKernelShape.fc_never_lost (ops_ok_progs_ok s_okop_ge2 Hok Hp) Hr).
 Qed.
